@@ -18,6 +18,18 @@ def _src(node):
         return "?"
 
 
+NORMALISE = False   # set while the multi-axis branch (after inlining helper functions) is translated
+
+
+def _nsrc(node):
+    """source text with `obj.shape[i:j]` / `variadic_dim.broadcastable` written as the locals they are usually bound to
+    (after a helper has been inlined its parameters appear as the argument expressions)"""
+    t = _src(node)
+    if NORMALISE:
+        t = t.replace("obj.shape[i:j]", "new_shape").replace("variadic_dim.broadcastable", "broadcastable")
+    return t
+
+
 def _strip(stmts):
     """drop asserts and docstrings"""
     return [s for s in stmts if not isinstance(s, ast.Assert) and not (isinstance(s, ast.Expr) and isinstance(s.value, ast.Constant))]
@@ -159,15 +171,20 @@ def translate_check_dims(tree):
     fn = next((n for n in tree.body if isinstance(n, ast.FunctionDef) and n.name == "_check_dims"), None)
     if fn is None:
         return [("unknown", "unknown")], "no _check_dims"
+    fn = _inlined(fn, tree)
     loops = [s for s in _strip(fn.body) if isinstance(s, ast.For)]
     rest = [s for s in _strip(fn.body) if not isinstance(s, ast.For)]
     if len(loops) != 1 or _src(loops[0].target) != "(cls_dim, obj_size)" or _src(loops[0].iter) != "zip(cls_dims, obj_shape)" \
             or not (len(rest) == 1 and _is_accept_return(rest[0])) or loops[0].orelse:
         return [("unknown", "unknown")], "loop header / trailing return not recognised"
     body = _strip(loops[0].body)
+    chain = []
+    # leading guards `if <test>: continue` are branches of the chain that do nothing
+    while len(body) > 1 and isinstance(body[0], ast.If) and not body[0].orelse and [type(x) for x in _strip(body[0].body)] == [ast.Continue]:
+        chain.append((GUARDS.get(_src(body[0].test), "unknown"), "accept"))
+        body = body[1:]
     if len(body) != 1 or not isinstance(body[0], ast.If):
         return [("unknown", "unknown")], "loop body is not one if-chain"
-    chain = []
     node = body[0]
     while True:
         chain.append((GUARDS.get(_src(node.test), "unknown"), _action(node.body)))
@@ -200,10 +217,10 @@ CONDS = {
 def _vstmts(stmts):
     out = []
     for st in _strip(stmts):
-        if isinstance(st, ast.Assign) and _src(st) in ("new_shape = obj.shape[i:j]",):
+        if isinstance(st, ast.Assign) and _nsrc(st) in ("new_shape = obj.shape[i:j]", "new_shape = new_shape", "broadcastable = broadcastable"):
             continue
         if isinstance(st, ast.If):
-            c = CONDS.get(_src(st.test), "unknown")
+            c = CONDS.get(_nsrc(st.test), "unknown")
             if not st.orelse and len(st.body) == 1 and _is_message_return(st.body[0]):
                 out.append(f".failIf .{c}")
             else:
@@ -211,11 +228,11 @@ def _vstmts(stmts):
         elif isinstance(st, ast.Try):
             body = _strip(st.body)
             ok = (len(body) == 1 and isinstance(body[0], ast.Assign) and _src(body[0].targets[0]) == "broadcast_shape"
-                  and _src(body[0].value) in ("np.broadcast_shapes(new_shape, prev_shape)", "np.broadcast_shapes(prev_shape, new_shape)")
+                  and _nsrc(body[0].value) in ("np.broadcast_shapes(new_shape, prev_shape)", "np.broadcast_shapes(prev_shape, new_shape)")
                   and len(st.handlers) == 1 and _src(st.handlers[0].type) == "ValueError" and len(st.handlers[0].body) == 1
                   and _is_message_return(st.handlers[0].body[0]) and not st.orelse and not st.finalbody)
             out.append(".bcast" if ok else ".unknown")
-        elif isinstance(st, ast.Assign) and _src(st) == "variadic_memo[name] = (broadcastable, broadcast_shape)":
+        elif isinstance(st, ast.Assign) and _nsrc(st) == "variadic_memo[name] = (broadcastable, broadcast_shape)":
             out.append(".storeCurBs")
         elif _is_accept_return(st):
             out.append(".accept")
@@ -229,16 +246,35 @@ def translate_variadic(tree):
     fn = next((n for n in (cls.body if cls else []) if isinstance(n, ast.FunctionDef) and n.name == "_check_shape"), None)
     if fn is None:
         return [".unknown"], False, "no _check_shape"
+    global NORMALISE
+    NORMALISE = True
+    try:
+        return _translate_variadic(_inlined(fn, tree, cls, exclude=("_check_dims",)))
+    finally:
+        NORMALISE = False
+
+
+def _inlined(fn, tree, cls=None, exclude=()):
+    from inline import inline_helpers
+
+    return inline_helpers(fn, tree, cls, exclude=exclude)
+
+
+def _translate_variadic(fn):
     unpack = "prev_broadcastable, prev_shape = variadic_memo[name]"
-    store_first = ["variadic_memo[name] = (broadcastable, obj.shape[i:j])", "return ''"]
+    store_first = ["variadic_memo[name] = (broadcastable, new_shape)", "return ''"]
     tries = [n for n in ast.walk(fn) if isinstance(n, ast.Try) and len(n.body) == 1 and _src(n.body[0]).replace("(", "").replace(")", "") == unpack]
     if len(tries) == 1:
         t = tries[0]
         first = (len(t.handlers) == 1 and _src(t.handlers[0].type) == "KeyError"
-                 and [_src(s) for s in _strip(t.handlers[0].body)] == store_first)
+                 and [_nsrc(s) for s in _strip(t.handlers[0].body)] == store_first)
         code = _vstmts(t.orelse)
-        # statements following the try inside the same block (none today) would run after it; the enclosing
-        # block must end with the try or with `return ""`
+        if not t.orelse:
+            # the bound case follows the try in the enclosing block (the handler returned)
+            for blk in ast.walk(fn):
+                for seq in [getattr(blk, f, None) for f in ("body", "orelse")]:
+                    if isinstance(seq, list) and t in seq:
+                        code = _vstmts(seq[seq.index(t) + 1:])
         return code, bool(first), ""
     # the same lookup as a membership test: `if name not in variadic_memo: <store>; return ""` followed by the
     # unpacking and the statements for the bound case (or `if name in variadic_memo: ... else: <store>; return ""`)
@@ -250,15 +286,15 @@ def translate_variadic(tree):
                     continue
                 test = _src(st.test)
                 if test in ("name not in variadic_memo", "not name in variadic_memo") and not st.orelse:
-                    first = [_src(s) for s in _strip(st.body)] == store_first
+                    first = [_nsrc(s) for s in _strip(st.body)] == store_first
                     rest = seq[k + 1:]
                 elif test in ("name not in variadic_memo", "not name in variadic_memo") and st.orelse:
-                    first = [_src(s) for s in _strip(st.body)] == store_first
+                    first = [_nsrc(s) for s in _strip(st.body)] == store_first
                     rest = _strip(st.orelse)
                     if seq[k + 1:]:
                         return [".unknown"], False, "statements after the membership test"
                 elif test == "name in variadic_memo" and st.orelse:
-                    first = [_src(s) for s in _strip(st.orelse)] == store_first
+                    first = [_nsrc(s) for s in _strip(st.orelse)] == store_first
                     rest = _strip(st.body)
                     if seq[k + 1:]:
                         return [".unknown"], False, "statements after the membership test"
@@ -318,6 +354,25 @@ def translate_stages(tree):
                   and sorted(_src(a) for a in t2.operand.args) == ["cls.dtypes", "dtype"]
                   and bool(rets) and all(_is_message_return(r) for r in rets) and not st.orelse)
             out.append("dtypeTest" if ok else "unknown")
+        elif isinstance(st, ast.Assign) and isinstance(st.value, ast.Call) and isinstance(st.value.func, ast.Name) and st.value.func.id in helpers \
+                and len(st.value.args) == 2 and _src(st.value.args[0]) == "cls" and isinstance(st.value.args[1], ast.Call) \
+                and isinstance(st.value.args[1].func, ast.Name) and st.value.args[1].func.id in helpers and [_src(a) for a in st.value.args[1].args] == ["obj"] \
+                and i + 1 < len(body) and isinstance(body[i + 1], ast.If) and _src(body[i + 1].test) == f"{_src(st.targets[0])} != ''" \
+                and [_src(x) for x in body[i + 1].body] == [f"return {_src(st.targets[0])}"] and not body[i + 1].orelse:
+            # `msg = <check_dtype>(cls, <dtype_name>(obj))` / `if msg != "": return msg`: name extraction, then the dtype test
+            h2 = helpers[st.value.func.id]
+            rets = [r for r in ast.walk(h2) if isinstance(r, ast.Return)]
+            ok = "_any_dtype" in _src(h2) and bool(rets) and all(_is_accept_return(r) or _is_message_return(r) for r in rets) \
+                and not any(isinstance(n, ast.Call) and _src(n.func) in ("set_shape_memo", "get_shape_memo") for hh in (h2, helpers[st.value.args[1].func.id]) for n in ast.walk(hh))
+            out.extend(["dtypeName", "dtypeTest"] if ok else ["unknown"])
+            i += 1
+        elif isinstance(st, ast.Assign) and _src(st.value) == "get_shape_memo()" and isinstance(st.targets[0], ast.Name) \
+                and i + 2 < len(body) and isinstance(body[i + 1], ast.Assign) and _src(body[i + 1].value) == st.targets[0].id \
+                and isinstance(body[i + 2], ast.Assign) and __import__("re").fullmatch(
+                    r"tuple\(*\[?(\w+)\.copy\(\)for\1in" + st.targets[0].id + r"\]?\)*", _src(body[i + 2].value).replace(" ", "")):
+            # `memos = get_shape_memo()`, unpacked, `memos_bak = tuple(m.copy() for m in memos)`
+            out.append("snapshot")
+            i += 2
         elif isinstance(st, ast.Assign) and _src(st.value) == "get_shape_memo()":
             # followed by the four .copy() backups
             baks = body[i + 1:i + 5]
@@ -481,6 +536,9 @@ class _ParserTranslator:
             if tgt == "elem" and val in CTORS:
                 self.first_char_ok = False
                 return f"(.mk .{CTORS[val]})"
+            if tgt == "elem" and isinstance(st.value, ast.IfExp) and _src(st.value.body) in CTORS and _src(st.value.orelse) in CTORS:
+                self.first_char_ok = False
+                return f"(.ite {self.cond(st.value.test)} (.mk .{CTORS[_src(st.value.body)]}) (.mk .{CTORS[_src(st.value.orelse)]}))"
         if isinstance(st, ast.Expr) and src == "dims.append(elem)":
             return ".append"
         self.notes.append("statement not recognised: " + src[:60])
@@ -495,8 +553,22 @@ def translate_parser(tree):
     if len(loops) != 1:
         return ".unknown", [".unknown"], False, ["the loop over dim_str.split() was not found"]
     lp = loops[0]
+    # `dims.append(<helper>(...))` is `elem = <helper>(...)` followed by `dims.append(elem)`; then see through helpers
+    import copy
+
+    fn2 = copy.deepcopy(fn)
+    lp2 = next(n for n in fn2.body if isinstance(n, ast.For) and _src(n.iter) == "enumerate(dim_str.split())")
+    for k_, st in enumerate(list(lp2.body)):
+        if isinstance(st, ast.Expr) and isinstance(st.value, ast.Call) and _src(st.value.func) == "dims.append" and len(st.value.args) == 1 \
+                and isinstance(st.value.args[0], ast.Call) and k_ == len(lp2.body) - 1:
+            lp2.body[k_:k_ + 1] = [ast.Assign(targets=[ast.Name(id="elem", ctx=ast.Store())], value=st.value.args[0], lineno=0, col_offset=0),
+                                   ast.Expr(value=ast.Call(func=st.value.func, args=[ast.Name(id="elem", ctx=ast.Load())], keywords=[]))]
+    ast.fix_missing_locations(fn2)
+    fn2 = _inlined(fn2, tree)
+    lp = next(n for n in fn2.body if isinstance(n, ast.For) and _src(n.iter) == "enumerate(dim_str.split())")
     tr = _ParserTranslator()
     body = tr.seq(lp.body)
+    fn = fn2
     k = fn.body.index(lp)
     before = [_src(s) for s in _strip(fn.body[:k])]
     after = [_src(s) for s in _strip(fn.body[k + 1:k + 2])]
@@ -577,10 +649,16 @@ def translate_slices(tree):
     if fn is None:
         return unknown, "no _check_shape"
     body = _strip(fn.body)
-    if len(body) != 1 or not isinstance(body[0], ast.If) or _src(body[0].test) not in ("cls.index_variadic is None", "cls.index_variadic is not None"):
+    if not body or not isinstance(body[0], ast.If) or _src(body[0].test) not in ("cls.index_variadic is None", "cls.index_variadic is not None"):
         return unknown, "top-level split on cls.index_variadic not recognised"
     top = body[0]
-    novar, var = (top.body, top.orelse) if _src(top.test) == "cls.index_variadic is None" else (top.orelse, top.body)
+    if len(body) > 1:
+        # un-nested: `if cls.index_variadic is None: ...; return ...` followed by the other case
+        if top.orelse or _src(top.test) != "cls.index_variadic is None" or not isinstance(_strip(top.body)[-1], ast.Return):
+            return unknown, "top-level split on cls.index_variadic not recognised"
+        novar, var = top.body, body[1:]
+    else:
+        novar, var = (top.body, top.orelse) if _src(top.test) == "cls.index_variadic is None" else (top.orelse, top.body)
     novar, var = _strip(novar), _strip(var)
     # no multi-axis specifier: `if <rank test>: return <msg>` then `return _check_dims(cls.dims, obj.shape, ...)`
     if not (len(novar) == 2 and isinstance(novar[0], ast.If) and len(novar[0].body) == 1 and _is_message_return(novar[0].body[0]) and not novar[0].orelse
